@@ -489,10 +489,35 @@ def b_filter(I, fv, args, kw):
     return I.new_list(out)
 
 
+def deep_key(I, v):
+    """structural key of a value for uninterpreted library functions: containers by content (at the time of the call)"""
+    v = I.resolve(v) if hasattr(I, "resolve") else v
+    if isinstance(v, VTuple):
+        return ("tup",) + tuple(deep_key(I, x) for x in v.items)
+    if isinstance(v, VRef):
+        o = I.hobj(v)
+        if o.kind == "list":
+            return ("list",) + tuple(deep_key(I, x) for x in o.items)
+        if o.kind == "dict":
+            return ("dict",) + tuple((deep_key(I, k), deep_key(I, x)) for k, x in o.items)
+        return ("ref", v.ref)
+    return vkey(I, v)
+
+
 def b_sorted(I, fv, args, kw):
     items = I.iterate(args[0])
+
+    def skey(v):
+        if isinstance(v, (VInt, VStr)) and v.c is not None:
+            return v.c
+        if isinstance(v, VTuple) and v.items and isinstance(v.items[0], (VInt, VStr)) and v.items[0].c is not None:
+            return v.items[0].c         # tuples with distinct concrete first components: the order is decided by them
+        _unsup("sorted of symbolic values")
     try:
-        conc = sorted(items, key=lambda v: v.c if isinstance(v, (VInt, VStr)) and v.c is not None else _unsup("sorted of symbolic values"))
+        ks = [skey(v) for v in items]
+        if len(set(ks)) != len(ks) and any(isinstance(v, VTuple) for v in items):
+            _unsup("sorted of tuples with equal first components")
+        conc = sorted(items, key=skey)
     except TypeError:
         raise Unsupported("sorted")
     return I.new_list(conc)
